@@ -96,7 +96,7 @@ func main() {
 	r.FloorCount("waiters_released_by_notification", int64(r.Pick(300, 4000)))
 	r.FloorCount("waiters_answered_with_context_error", int64(r.Pick(300, 4000)))
 	r.FloorCount("barrier_checks", int64(r.Pick(300, 4000)))
-	r.FloorCount("forwarding_cases", int64(r.Pick(45, 560)))
+	r.FloorCount("forwarding_cases", int64(r.Pick(40, 520)))
 	r.FloorCount("e2e_follower_writes_read_back", int64(r.Pick(60, 500)))
 	r.FloorCount("e2e_noop_deletes_of_keys_just_removed_on_leader", int64(r.Pick(8, 100)))
 	r.FloorCount("e2e_writes_after_restart_acked", int64(r.Pick(5, 40)))
